@@ -305,7 +305,10 @@ class Kernel(object):
                     elif isinstance(o, property):
                         stack.extend([f for f in (o.fget, o.fset) if f])
                     elif hasattr(o, "__code__") and getattr(o, "__module__", None) == m.__name__:
-                        walk(o.__code__)
+                        if hasattr(o, "__wrapped__"):
+                            stack.append(o.__wrapped__)       # harness probe around a repo function
+                        else:
+                            walk(o.__code__)
         mon.register_callback(tool, mon.events.LINE, self._on_line)
         for c in self._mon_codes:
             mon.set_local_events(tool, c, mon.events.LINE)
@@ -706,3 +709,7 @@ def install(nfc):
     for cls in (nfc.snep.server.SnepServer, nfc.handover.server.HandoverServer):
         cls.__bases__ = (SimThread,)
     _installed[0] = True
+    # process-wide probes are installed together with the seams so that every run of a process sees the
+    # same code objects (a probe installed by a later check would change the instrumented set)
+    from . import w5
+    w5.install_accept_race_probe(nfc)
